@@ -272,7 +272,7 @@ func runPager(c Case, e *env) []Event {
 			case "looksuffix":
 				href = fmt.Sprintf("https://evil%s/zqs/view/%d", pagerHost, num)
 			case "js":
-				href = fmt.Sprintf("javascript:go(%d)", num)
+				href = pickS(r, fmt.Sprintf("javascript:go(%d)", num), fmt.Sprintf("javascript:go(%d)", num), fmt.Sprintf("JavaScript:void(%d)", num), "JAVASCRIPT:;")
 			case "mailto":
 				href = fmt.Sprintf("mailto:p%d@%s", num, pagerHost)
 			case "empty":
